@@ -15,7 +15,7 @@ LEVEL_TEXT = (
     'the predecessor at the index of the acting actor; no-op elision is restricted to non-ordered '
     'networks. User handlers and value-level equality of successors are not decided.')
 
-FLOORS = {'C06-R1': 12, 'C06-R2': 4, 'C06-R3': 8, 'C06-R4': 10, 'C06-R5': 4, 'C06-R6': 13}
+FLOORS = {'C06-R1': 12, 'C06-R2': 4, 'C06-R3': 8, 'C06-R4': 10, 'C06-R5': 4, 'C06-R6': 13, 'C07-R3': 6}
 
 
 def r1_table(ctx, F):
@@ -240,9 +240,24 @@ def r3_commands(ctx, F):
     emp = [c for c in b.calls if c.bb in blocks and c.is_('Vec::is_empty')]
     rm = [c for c in b.calls if c.bb in blocks and c.is_('RandomChoices::remove')]
     ins = [c for c in b.calls if c.bb in blocks and c.is_('RandomChoices::insert')]
-    ok = len(emp) == 1 and len(rm) == 1 and len(ins) == 1 and \
-        b.edges_dominate(b.branch(emp[0], True), rm[0].bb, frm=[emp[0].bb]) and \
-        b.edges_dominate(b.branch(emp[0], False), ins[0].bb, frm=[emp[0].bb])
+    # "the list is empty", however it is asked: is_empty(), len() == 0, the slice pattern `[]`
+    from common import edges_where
+
+    def is_len(v):
+        v = noref(v)
+        if v.kind == 'un' and v.key[0] == 'PtrMetadata':
+            return True
+        c_ = b.call_at(v.key) if v.kind == 'call' else None
+        return c_ is not None and c_.is_('Vec::len', 'slice::len')
+
+    def zero(v):
+        return v.kind == 'const' and v.key == 0
+    empty_e = [e for c in emp for e in b.branch(c, True)] + \
+        [e for (bb_, es) in edges_where(b, is_len, zero, 'eq', with_blocks=True) if bb_ in blocks for e in es]
+    nonempty_e = [e for c in emp for e in b.branch(c, False)] + \
+        [e for (bb_, es) in edges_where(b, is_len, zero, 'ne', with_blocks=True) if bb_ in blocks for e in es]
+    ok = bool(empty_e) and bool(nonempty_e) and len(rm) == 1 and len(ins) == 1 and \
+        b.edges_dominate(empty_e, rm[0].bb) and b.edges_dominate(nonempty_e, ins[0].bb)
     ctx.check(ok, rule, 'choose-random-empty-removes', b,
               good='an empty choice list removes the key, a non-empty one (over)writes it',
               bad='process_commands: ChooseRandom does not remove on empty / insert on non-empty')
@@ -343,6 +358,21 @@ def r5_noop(ctx, F):
             elided = [i for (i, st) in ns.none_returns('Deliver') if i in b.reach([noop[0].bb])]
             if not_ordered and b.edges_dominate(not_ordered, noop[0].bb) and elided:
                 ok = True
+    if not ok and nones_after:
+        # any mix of the two: the flag may be computed before is_no_op and tested after it
+        # (`let is_ordered = matches!(..); if is_no_op(..) && !is_ordered { return None }`): every elision must be
+        # dominated by evidence that the network is not Ordered - an edge of a match on init_network or of a test
+        # of a flag caching it
+        from common import variant_flags
+        evid = [e for sw in b.switches if sw.kind == 'variant' and noref(sw.on).fields()[-1:] == ('.init_network',)
+                for e in sw.edges_not('Ordered')]
+        for l, m in variant_flags(b, 'init_network').items():
+            ordered_val = True if 'Ordered' in m[True] else False if 'Ordered' in m[False] else None
+            if ordered_val is None:
+                continue
+            evid += [e for sw in b.switches if sw.kind == 'bool' and sw.on.kind == 'local' and sw.on.key == l
+                     for e in sw.edges_for(not ordered_val)]
+        ok = bool(evid) and all(b.edges_dominate(evid, n) for n in nones_after)
     ctx.check(ok, rule, 'noop-elision-not-on-ordered', b,
               good='a no-op delivery is elided only when the initial network is not Ordered',
               bad='next_state: a no-op delivery is elided (returns None) without testing that the network '
@@ -384,11 +414,39 @@ def r5_noop(ctx, F):
     lens = g.calls_to('Vec::len')
     anyc = g.calls_to('Iterator::any')
     (ba, bsws) = borrowed_atom(g)
-    one = [x for x in comparisons(g) if x[2] in ('eq', 'ne') and
-           any(noref(v).kind == 'call' and g.call_at(noref(v).key) in lens for v in x[:2]) and
+    def is_length(v):
+        v = noref(v)
+        return (v.kind == 'call' and g.call_at(v.key) in lens) or (v.kind == 'un' and v.key[0] == 'PtrMetadata')
+    one = [x for x in comparisons(g) if x[2] in ('eq', 'ne') and any(is_length(v) for v in x[:2]) and
            any(noref(v).kind == 'const' and noref(v).key == 1 for v in x[:2])]
     ok = len(anyc) == 1 and bool(bsws) and len(one) == 1
-    if ok:
+    if not anyc and bsws and len(one) == 1:
+        # the slice-pattern spelling: `matches!(&out.0[..], [Command::SetTimer(t, _)] if t == timer)` - the single
+        # command is looked at directly: its kind (a match on the element) and its timer (an equality with the
+        # `timer` parameter) are two atoms instead of one `any(..)`
+        x = one[0]
+        one_sw = [sw for sw in g.switches if sw.bb == x[5]]
+        kind_sw = [sw for sw in g.switches if sw.kind == 'variant' and sw.edges_for('SetTimer') and
+                   noref(sw.on).kind != 'arg']
+        same = [c for c in g.calls if c.is_('PartialEq::eq', 'cmp::impls::eq') and len(c.args) == 2 and
+                any('as SetTimer' in noref(g.val(a)).projs for a in c.args) and
+                any(noref(g.val(a)).kind == 'arg' and noref(g.val(a)).key == 3 for a in c.args)]
+        ok = len(kind_sw) == 1 and len(same) == 1
+        if ok:
+            def one_cons2(val):
+                want = x[3] if (x[2] == 'eq') == val else x[4]
+                labs = set(l for sw in one_sw for (l, t) in sw.edges if (sw.bb, t) in want)
+                return [(one_sw, lab) for lab in labs][:1]
+            other_kind = [l for (l, t) in kind_sw[0].edges if l != 'SetTimer']
+            other_lab = next(iter(other_kind[0])) if other_kind and isinstance(other_kind[0], frozenset) else \
+                (other_kind[0] if other_kind else None)
+            atoms = {'borrowed': ba,
+                     'single': (one_cons2, lambda v: False),
+                     'is_set_timer': (lambda val: [(kind_sw, 'SetTimer' if val else other_lab)], lambda v: False),
+                     'same_timer': call_atom(g, same[0])}
+            names, tab = bool_fn_table(g, atoms)
+            ok = other_lab is not None and all(tab[c] == ({True} if all(c) else {False}) for c in tab)
+    elif ok:
         x = one[0]
         one_sw = [sw for sw in g.switches if sw.bb == x[5]]
 
@@ -563,3 +621,9 @@ def run(ctx):
                       'broadcast}, Timers::{set,cancel,cancel_all,iter}, RandomChoices::{insert,remove}')
     with ctx.rule('C06-R6', 'primitives'):
         r6_primitives(ctx, F)
+    # "sends enter the network in emission order ... nothing else changes": on an ordered network a delivery or
+    # drop takes exactly the head of a flow and leaves the order of the rest alone
+    import c07
+    ctx.doc('C07-R3', 'ordered flows: push_back on send, front on read, order-preserving single removal')
+    with ctx.rule('C07-R3', 'network'):
+        c07.r3_fifo(ctx, F)
